@@ -22,7 +22,7 @@ def ob(name, nop, lowbits, **kw):
 OBLIGATIONS = [
     ob('queue_op2_oid2', 2, 4, defs=['NOP=2', 'NOID=2', 'LOWFIX'], bounds='2 operations, 2 oids with fixed distinct low 4 bits and symbolic upper 60 bits, 2 users'),
     ob('queue_op3_oid2', 3, 4, defs=['NOP=3', 'NOID=2', 'LOWFIX'], bounds='3 operations, 2 oids with fixed distinct low 4 bits and symbolic upper 60 bits, 2 users', timeout=3000, mem_gb=8, tiers=('thorough',)),
-    ob('queue_op3', 3, 4, defs=['NOP=3', 'LOWFIX'], bounds='3 operations, 3 oids with fixed distinct low 4 bits (slots 1,4,7) and symbolic upper 60 bits, 2 users', timeout=800, mem_gb=6),
+    ob('queue_op3', 3, 4, defs=['NOP=3', 'LOWFIX'], bounds='3 operations, 3 oids with fixed distinct low 4 bits (slots 1,4,7) and symbolic upper 60 bits, 2 users', timeout=800, mem_gb=12),
     ob('queue_op4', 4, 4, defs=['NOP=4', 'LOWFIX'], bounds='4 operations, same oids', tiers=('thorough',), timeout=3400, mem_gb=30),
     ob('queue_op3_anylow', 3, 4, bounds='3 operations, 3 oids differing within their low 4 bits (no table growth)', tiers=('thorough',), timeout=3400, mem_gb=40),
     ob('table_growth_32_64', 1, 4, defs=['NOP=1', 'RESIZE=5', 'TABMAX=64'], bounds='two oids sharing their low 4..5 bits: table grows to 32..64 slots', timeout=800, mem_gb=6,
